@@ -81,6 +81,7 @@ inductive Err
   | runtime              -- torch `RuntimeError` (channel / size mismatch, empty pool output)
   | index                -- `IndexError` (decoder asks for a skip feature that does not exist)
   | unbound              -- `UnboundLocalError` (`block` in the extra-block loop with `up_blocks = 0`)
+  | negPow               -- numpy `ValueError: Integers to negative integer powers are not allowed`
 deriving DecidableEq, Repr
 
 inductive Res (α : Type)
@@ -244,38 +245,46 @@ def unetEncBlocks (inCh f : Nat) (r : Rate) (cpb stem : Nat) : Nat → Nat → L
            (if idx < stem then cpb else cpb - 1)
       ++ [Op.tap] ++ unetEncBlocks inCh f r cpb stem (idx + 1) n
 
-def unetEnc (inCh f : Nat) (r : Rate) (cpb stem down : Nat) (middle : Bool) : List Op :=
-  let D := stem + down
-  unetEncBlocks inCh f r cpb stem 0 D ++ [Op.pool] ++
+/-- `nb` = number of stem + down blocks actually built (`range(down_blocks)` is empty for a negative
+    `down_blocks`); `De` = the exponent `down_blocks + stem_blocks` as Python computes it (a negative
+    `down_blocks` is NOT clamped there: `stem_stride > max_stride`). -/
+def unetEnc (inCh f : Nat) (r : Rate) (cpb stem nb : Nat) (De : Int) (middle : Bool) : List Op :=
+  unetEncBlocks inCh f r cpb stem 0 nb ++ [Op.pool] ++
     (if middle then
-      (if cpb > 1 then convs (scale f r ((D : Int) - 1)) (scale f r D) (cpb - 1) else [])
-        ++ [Op.conv (scale f r D) (scale f r D)]
+      (if cpb > 1 then convs (scale f r ((nb : Int) - 1)) (scale f r De) (cpb - 1) else [])
+        ++ [Op.conv (scale f r De) (scale f r De)]
      else [])
 
 /-- the `for block in range(up_blocks)` loop of `Decoder.__init__` -/
-def decUp (f : Nat) (r : Rate) (D : Nat) (xIn : Nat) : Nat → Nat → Nat → List DecBlock
+def decUp (f : Nat) (r : Rate) (D : Int) (xIn : Nat) : Nat → Nat → Nat → List DecBlock
   | _, _, 0 => []
   | block, cur, n + 1 =>
-    let fin := scale f r ((D : Int) - 1 - block)
-    let prev := if block = 0 then xIn else scale f r ((D : Int) - block)
+    let fin := scale f r (D - 1 - block)
+    let prev := if block = 0 then xIn else scale f r (D - block)
     { label := cur, convIn := prev + fin, tIn := prev, out := fin, skip := true }
       :: decUp f r D xIn (block + 1) (cur / 2) n
 
 /-- the `while current_stride >= output_stride` loop (`fuel` bounds the halvings) -/
-def decExtra (f : Nat) (r : Rate) (D : Nat) (bos : Nat) : Nat → Nat → Nat → List DecBlock
+def decExtra (f : Nat) (r : Rate) (D : Int) (bos : Nat) : Nat → Nat → Nat → List DecBlock
   | 0, _, _ => []
   | fuel + 1, block, cur =>
     if cur ≥ bos ∧ cur > 0 then
-      let fin := scale f r ((D : Int) - 1 - block)
+      let fin := scale f r (D - 1 - block)
       { label := cur, convIn := fin, tIn := fin, out := fin * r.q / r.p, skip := false }
         :: decExtra f r D bos fuel (block + 1) (cur / 2)
     else []
 
-def decBuild (f : Nat) (r : Rate) (D up xIn cur bos : Nat) : Res (List DecBlock) :=
+/-- `npInt`: the block counts are numpy integers and `filters_rate` is a Python int (UNet with an
+    integer rate): `filters_rate ** (negative numpy int)` raises instead of giving a fraction.  A
+    negative exponent only occurs in the extra blocks when `stem_stride > max_stride`. -/
+def decBuild (npInt : Bool) (f : Nat) (r : Rate) (D : Int) (up xIn cur bos : Nat) : Res (List DecBlock) :=
   let ups := decUp f r D xIn 0 cur up
   let cur' := cur / 2 ^ up
   if up = 0 ∧ cur' ≥ bos ∧ cur' > 0 then .err .unbound
-  else .ok (ups ++ decExtra f r D bos (cur' + 1) (up - 1) cur')
+  else
+    let extra := decExtra f r D bos (cur' + 1) (up - 1) cur'
+    if npInt ∧ extra ≠ [] ∧ D - up - extra.length + 1 < 0 then .err .negPow
+    else .ok (ups ++ extra)
 
 def convnextChannels : Nat → List Nat
   | 2 => [128, 256, 512, 1024]
@@ -300,28 +309,31 @@ def wrapUp (fixWrap : Bool) (sps bos : Nat) : Nat :=
 def build (c : Cfg) : Res Built :=
   match c.fam with
   | .unet =>
-    let (stem, down, up) := unetBlocks c.stem c.maxStride c.bos
-    let stem := stem.toNat; let down := down.toNat; let up := up.toNat
-    let D := stem + down
-    let xIn := scale c.filters c.rate D
+    let (stemI, downI, upI) := unetBlocks c.stem c.maxStride c.bos
+    let stem := stemI.toNat; let up := upI.toNat
+    -- blocks actually built: `range(down_blocks)` is empty when `down_blocks < 0` (stem_stride > max_stride) …
+    let nb := stem + downI.toNat
+    -- … but the filter exponents use `down_blocks + stem_blocks` unclamped
+    let De : Int := stemI + downI
+    let xIn := scale c.filters c.rate De
     -- decoder input channels (`x_in_shape`): with the middle-block fix and no middle block the
     -- encoder output keeps the last down block's filters
-    let xDec := if c.fixMid && !c.middle then scale c.filters c.rate ((D : Int) - 1) else xIn
+    let xDec := if c.fixMid && !c.middle then scale c.filters c.rate (De - 1) else xIn
     -- `current_stride` = product of the pooling strides of the pooled conv blocks
-    let cur := 2 ^ (D - 1)
-    (decBuild c.filters c.rate D up xDec cur c.bos).bind fun dec =>
-      .ok { enc := unetEnc c.inCh c.filters c.rate c.cpb stem down c.middle, xIn := xIn, dec := dec }
+    let cur := 2 ^ (nb - 1)
+    (decBuild (c.rate.q == 1) c.filters c.rate De up xDec cur c.bos).bind fun dec =>
+      .ok { enc := unetEnc c.inCh c.filters c.rate c.cpb stem nb De c.middle, xIn := xIn, dec := dec }
   | .convnext =>
     let ch := convnextChannels c.variant
     let c0 := ch.getD 0 0; let c1 := ch.getD 1 0; let c2 := ch.getD 2 0; let c3 := ch.getD 3 0
     let enc := [Op.sconv c.inCh c0 c.stemKernel c.stem 1, .tap, .sconv c0 c1 2 2 0, .tap, .sconv c1 c2 2 2 0, .tap,
                 .sconv c2 c3 2 2 0]
-    (decBuild c0 c.rate 3 (wrapUp c.fixWrap c.stem c.bos) c3 (c.stem * 4) c.bos).bind fun dec =>
+    (decBuild false c0 c.rate 3 (wrapUp c.fixWrap c.stem c.bos) c3 (c.stem * 4) c.bos).bind fun dec =>
       .ok { enc := enc, xIn := c3, dec := dec }
   | .swint =>
     let e := swintEmbed c.variant
     let enc := [Op.sconv c.inCh e c.stemKernel c.stem 1, .tap, .merge, .tap, .merge, .tap, .merge]
-    (decBuild e c.rate 3 (wrapUp c.fixWrap c.stem c.bos) (e * 8) (c.stem * 4) c.bos).bind fun dec =>
+    (decBuild false e c.rate 3 (wrapUp c.fixWrap c.stem c.bos) (e * 8) (c.stem * 4) c.bos).bind fun dec =>
       .ok { enc := enc, xIn := e * 8, dec := dec }
 
 def labels (dec : List DecBlock) : List Nat := dec.map (·.label)
